@@ -826,10 +826,12 @@ func (w *World) generate(rng *Rand) {
 				if used[i] {
 					continue
 				}
-				if len(tp.Ops) == 1 && !tp.NoOOG && tp.Gas == 0 && rng.Bool(5*w.Cfg.PFailTail) {
+				// (NoOOG only exempts a plan from gas-limit injection: a rolled-back parameter
+				// update or governor operation is as legitimate a history as any other)
+				if len(tp.Ops) == 1 && tp.Gas == 0 && rng.Bool(5*w.Cfg.PFailTail) {
 					for j := i + 1; j < len(txs) && len(tp.Ops) < 3; j++ {
 						o := txs[j]
-						if !used[j] && len(o.Ops) == 1 && !o.NoOOG && o.Ops[0].Actor == tp.Ops[0].Actor && o.Ops[0].Mod != "engine" {
+						if !used[j] && len(o.Ops) == 1 && o.Ops[0].Actor == tp.Ops[0].Actor && o.Ops[0].Mod != "engine" {
 							tp.Ops = append(tp.Ops, o.Ops[0])
 							used[j] = true
 						}
@@ -849,7 +851,7 @@ func (w *World) generate(rng *Rand) {
 			if hasFailTail(tp) {
 				continue
 			}
-			if !tp.NoOOG && w.Cfg.PFailTail > 0 && rng.Bool(w.Cfg.PFailTail) {
+			if w.Cfg.PFailTail > 0 && rng.Bool(w.Cfg.PFailTail) {
 				w.nextOp++
 				tp.Ops = append(tp.Ops, &Op{ID: w.nextOp, Mod: "engine", Kind: "failtail", Actor: tp.Ops[0].Actor})
 				continue
